@@ -91,6 +91,8 @@ Fixpoint vwlb_loop (fuel : nat) (n : Z) (d : bytes) (indx mnidx : Z) : result (l
     let! frame := rd_s 2 Big d indx in
     let! s := rd_s 2 Big d (indx + 2) in
     let! e := rd_s 2 Big d (indx + 6) in
+    (* the names are stored one after another *)
+    if e <? s then Err EValue else
     let name := slice d (mnidx + s) (mnidx + e) in
     let! r := vwlb_loop k (n - 1) d (indx + 4) mnidx in
     Ok ((name, frame) :: r)
